@@ -38,6 +38,7 @@ func propC02(c *Ctx) {
 			runParseCase(c, strings.ReplaceAll(tpl, "%s", u), "foreign-symbol")
 		}
 	}
+	propScaleExpressions(c, "C02")
 	// (2) generated sentences + (3) token-level mutants of any size
 	g := newExGen(c)
 	n := 1500
